@@ -291,6 +291,10 @@ Next ==
     \/ On("SendExplicit") /\ \E acct \in Accts, scope \in Scopes, mc \in 0..1, S \in SUBSET Coin : Cardinality(S) <= 2 /\ SendExplicit(acct, scope, mc, S)
     \/ On("SendExplicit") /\ \E acct \in Accts, scope \in Scopes, c \in Base : SendDup(acct, scope, 0, c)
     \/ On("FundOwn") /\ \E acct \in Accts, scope \in Scopes, c \in Base : FundOwn(acct, scope, 1, {c})
+    \/ On("FundOwn") /\ \E acct \in Accts, scope \in Scopes, c, d \in Base :
+           /\ c < d /\ BaseAttr(c).acct = acct /\ BaseAttr(d).acct = acct
+           /\ BaseAttr(c).scope = scope /\ BaseAttr(d).scope = scope
+           /\ FundOwn(acct, scope, 0, {c, d})      \* two inputs of one account and scope: funded, finalised, verified
     \/ On("DryRun") /\ \E acct \in Accts, scope \in Scopes, mc \in 0..2 : DryRun(acct, scope, mc)
     \/ On("DryRun") /\ \E acct \in Accts, scope \in Scopes, cscope \in AllScopes : CreateCS(acct, scope, 0, cscope)
     \/ On("Restart") /\ Restart
